@@ -76,8 +76,9 @@ func (p TEPart) ValidateTokenExchangeRequest(_ context.Context, r op.TokenExchan
 	if err := s.enter("ValidateTokenExchangeRequest", r.GetClientID(), r.GetExchangeSubject()); err != nil {
 		return err
 	}
+	s.noteExchange(r)
 	if r.GetRequestedTokenType() == "" {
-		r.SetRequestedTokenType(oidc.RefreshTokenType)
+		r.SetRequestedTokenType(s.teDefaultType())
 	}
 	if r.GetExchangeSubjectTokenType() == oidc.IDTokenType && r.GetRequestedTokenType() == oidc.RefreshTokenType {
 		return oidc.ErrInvalidRequest().WithDescription("exchanging id_token to refresh_token is not supported")
@@ -107,7 +108,8 @@ func (p TEPart) ValidateTokenExchangeRequest(_ context.Context, r op.TokenExchan
 			return oidc.ErrInvalidRequest().WithDescription("subject token is not live")
 		}
 	}
-	if r.GetExchangeActorTokenType() == oidc.AccessTokenType && r.GetExchangeActorTokenIDOrToken() != "" {
+	if r.GetExchangeActorTokenType() == oidc.AccessTokenType && (r.GetExchangeActorTokenIDOrToken() != "" || r.GetExchangeActor() != "") {
+		// (an actor was resolved - possibly with an empty token id, e.g. a JWT without jti: unknown to the store, hence not live)
 		if _, err := s.liveToken(r.GetExchangeActorTokenIDOrToken()); err != nil {
 			return oidc.ErrInvalidRequest().WithDescription("actor token is not live")
 		}
@@ -174,6 +176,9 @@ const (
 func (p TEVerifierPart) verify(method, token string, tokenType oidc.TokenType) (string, string, map[string]any, error) {
 	if err := p.S.enter(method, string(tokenType)); err != nil {
 		return "", "", nil, err
+	}
+	if id, sub, claims, handled, err := p.S.thirdParty(method, token, tokenType); handled {
+		return id, sub, claims, err
 	}
 	subject, ok := strings.CutPrefix(token, CustomTokenPrefix)
 	if tokenType != CustomTokenType || !ok || subject == "" {
